@@ -175,6 +175,10 @@ func c01(args []string) int {
 	layers = append(layers,
 		Layer{Name: "seeded/base/down-after-own-checkpoint", Cfg: cfgs["base"], Alphabet: strings.Fields("U CK:PASSIVE CK:TRUNCATE START NEW"), Depth: d(3, 5),
 			Seeds: [][]string{strings.Fields("W3 SW LC:PASSIVE SW CL"), strings.Fields("W3 SW LC:TRUNCATE SW CL"), strings.Fields("W3 SW LC:PASSIVE SW KILL")}},
+		// litestream is down while the application commits a short tail behind the synced position, checkpoints it and
+		// restarts the WAL with a page the tail did not touch: the tail exists only in the database file
+		Layer{Name: "seeded/base/tail-hidden-by-restart-while-down", Cfg: cfgs["base"], Alphabet: strings.Fields("U W1 CK:PASSIVE START NEW"), Depth: d(3, 4),
+			Seeds: [][]string{strings.Fields("W3 SW CL U CK:PASSIVE"), strings.Fields("W3 SW KILL U CK:PASSIVE"), strings.Fields("W3 SW CL W1 CK:PASSIVE")}},
 		// the Store-level wrapper behind the `sync -wait` request (SD) against syncs that already copied the WAL locally
 		Layer{Name: "seeded/base/store-sync-wait", Cfg: cfgs["base"], Alphabet: strings.Fields("SD W1 S RS LC:PASSIVE"), Depth: d(2, 4),
 			Seeds: [][]string{strings.Fields("W1 S"), strings.Fields("W1 SD W1 S"), strings.Fields("W3 SW U S")}},
